@@ -163,10 +163,9 @@ SPECS = {
         "coq_files": ["Lib/SortedX.v", "Model/Query.v", "Proofs/Query.v", "Proofs/QueryPool.v", "Run/QueryRun.v"],
         "runner_vo": "Run/QueryRun.v",
         "harness": [
-            {"component": "query", "args": [
+            {"component": "query", "args": [], "quick": 96, "thorough": 1600},
             # service level: real find_node lookups through the real Service loop, the harness plays the handler (monitor only)
             {"component": "svcq", "args": [], "quick": 200, "thorough": 3000, "correspondence": False},
-        ], "quick": 96, "thorough": 1600},
         ],
         "trusted_base": QUERY_TB,
         "assumptions": [
@@ -181,10 +180,9 @@ SPECS = {
         "coq_files": ["Lib/SortedX.v", "Model/Query.v", "Proofs/Query.v", "Proofs/QueryPool.v", "Run/QueryRun.v"],
         "runner_vo": "Run/QueryRun.v",
         "harness": [
-            {"component": "query", "args": [
+            {"component": "query", "args": [], "quick": 96, "thorough": 1600},
             # service level: real find_node lookups through the real Service loop, the harness plays the handler (monitor only)
             {"component": "svcq", "args": [], "quick": 200, "thorough": 3000, "correspondence": False},
-        ], "quick": 96, "thorough": 1600},
         ],
         "trusted_base": QUERY_TB,
         "assumptions": [
